@@ -22,6 +22,10 @@ type replayFile struct {
 }
 
 var params map[string]int
+var kind string
+
+// Kind of the replayed record ("witness", "assert", "panic", "deadlock").
+func Kind() string { return kind }
 
 // Param returns a check parameter (tier-dependent bound) or dflt.
 func Param(name string, dflt int) int {
@@ -54,6 +58,8 @@ func Load(path string) (entry string) {
 	vec, pos, loaded = r.Vector, 0, true
 	params = r.Params
 	schedule = r.Sched
+	kind = r.Kind
+	Observed = nil
 	Failed = nil
 	return r.Entry
 }
